@@ -365,7 +365,7 @@ func TestCheck(t *testing.T) {
 		for _, lim := range []int{0, 15, 3, math.MaxInt, math.MaxInt - 1, math.MaxInt - 63, 1 << 31, 1 << 32, -1, math.MinInt} { // a negative limit is non-zero: every text is longer
 			restore := setLimit(lim)
 			r.Serial(func(w *vkit.W) {
-				for _, text := range ref.ConventionalTexts {
+				for _, text := range append(append([]string{}, ref.ConventionalTexts...), ref.Wrapped("2024-02-29", "20240229")...) {
 					if lim < 0 && text == "" {
 						continue // which of the two reasons an empty text is refused for under a negative limit is not specified
 					}
